@@ -1,0 +1,61 @@
+//go:build verif
+
+package link_solicit_controller
+
+import (
+	"slices"
+
+	link_solicit "github.com/aperturerobotics/bifrost/link/solicit"
+)
+
+// VerifLinkState is a snapshot of the solicitation state of one link.
+type VerifLinkState struct {
+	// UUID is the link UUID the state is registered under.
+	UUID uint64
+	// SessionID is the session identifier computed by addLink.
+	SessionID []byte
+	// LocalIsLower is the opener decision computed by addLink.
+	LocalIsLower bool
+	// RemoteNil is set if no remote exchange was stored yet.
+	RemoteNil bool
+	// RemoteHashes is the last remote exchange stored by runControlStream.
+	RemoteHashes [][]byte
+	// Matched is the sorted list of hex hashes recorded as matched.
+	Matched []string
+}
+
+// VerifSnapshot returns, read under the controller lock, the SolicitProtocol
+// directives currently registered and the state of every tracked link.
+func VerifSnapshot(c *Controller) (sols []link_solicit.SolicitProtocol, links []VerifLinkState) {
+	c.bcast.HoldLock(func(_ func(), _ func() <-chan struct{}) {
+		for ss := range c.solicitations {
+			sols = append(sols, ss.dir)
+		}
+		for uuid, ls := range c.links {
+			st := VerifLinkState{
+				UUID:         uuid,
+				SessionID:    slices.Clone(ls.sessionID),
+				LocalIsLower: ls.localIsLower,
+				RemoteNil:    ls.remoteHashes == nil,
+			}
+			for _, h := range ls.remoteHashes {
+				st.RemoteHashes = append(st.RemoteHashes, slices.Clone(h))
+			}
+			for h := range ls.matched {
+				st.Matched = append(st.Matched, h)
+			}
+			slices.Sort(st.Matched)
+			links = append(links, st)
+		}
+	})
+	slices.SortFunc(links, func(a, b VerifLinkState) int {
+		if a.UUID < b.UUID {
+			return -1
+		}
+		if a.UUID > b.UUID {
+			return 1
+		}
+		return 0
+	})
+	return sols, links
+}
